@@ -6,10 +6,13 @@ package c04
 // Rendering:
 //   prog := 'A[' seq ']'                      entry: UA.run(seq) with all call flags
 //   op   := 'E'   PUT k<id> <id>; NOTIFY <id>   (an "effect": a storage and a notification trace, unique per position)
+//         | 'N'   NOTIFY <id>                   (works without the WriteStates flag)
 //         | 'P'   PUT a <id>                    (key shared by all instances and positions; exists initially)
 //         | 'D'   DEL a
 //         | 'X'   GAS.transfer(self -> account 2, 1, nil)
 //         | 'F'   Policy.setFeePerByte(1000+<id>)   (needs the committee witness: the tx is then also signed by the committee)
+//         | 'K'   Policy.blockAccount(account 5)   | 'U' Policy.unblockAccount(account 5)   (committee; cached sorted list + storage)
+//         | 'Y'   ContractManagement.deploy(fourth instance UD)            (contract registry cache + storage + Deploy event)
 //         | '!'   THROW   | '#' ABORT   | '~' GAS.transfer(self -> account 2, -1) = failing native call
 //         | inst flag '[' seq ']'               RUN: call <inst>.run(seq) with call flags <flag> (hex digit)
 //         | '$' src inst '[' seq ']'            native transfer of 1 token to <inst> with data = seq (executed by onNEP17Payment)
@@ -23,7 +26,7 @@ import (
 )
 
 type Op struct {
-	K     byte // E P D X F ! # ~ r(un) $(pay) T(ry)
+	K     byte // E N P D X F ! # ~ r(un) $(pay) T(ry)
 	ID    int  // position id (pre-order), unique within a program
 	To    int  // r,$: callee instance 0..2
 	Flags int  // r
@@ -86,7 +89,7 @@ func (p *parser) seq(end byte) ([]Op, error) {
 		p.id++
 		o := Op{ID: p.id}
 		switch c {
-		case 'E', 'P', 'D', 'X', 'F', '!', '#', '~':
+		case 'E', 'N', 'P', 'D', 'X', 'F', 'K', 'U', 'Y', '!', '#', '~':
 			o.K = c
 		case 'A', 'B', 'C':
 			o.K = 'r'
@@ -178,6 +181,18 @@ func hasOp(ops []Op, k byte) bool {
 	return false
 }
 
+func hasAny(ops []Op, ks string) bool {
+	for i := 0; i < len(ks); i++ {
+		if hasOp(ops, ks[i]) {
+			return true
+		}
+	}
+	return false
+}
+
+// needsCommittee: the program calls committee-only natives.
+func needsCommittee(ops []Op) bool { return hasAny(ops, "FKU") }
+
 func hasNeo(ops []Op) bool {
 	for _, o := range ops {
 		if (o.K == '$' && o.Src == 'n') || hasNeo(o.Body) || hasNeo(o.H) {
@@ -241,11 +256,30 @@ type item struct {
 	g, f int
 }
 
-func (sp *space) bodies(level, G, F int) []item {
+func (sp *space) bodies(level, G, F int, slot byte) []item {
 	var nested []item
 	if level < sp.Levels {
-		subs := sp.bodies(level+1, G, F)
+		cache := map[byte][]item{}
 		for _, k := range sp.Kinds[level] {
+			// Full mode: the slot op must be executable under the callee's call flags
+			sub := slot
+			if k[0] != '$' && slot != 0 {
+				switch k[1] {
+				case 'd':
+					if slot == 'E' {
+						sub = 'N'
+					}
+				case '7':
+					if slot == 'E' {
+						sub = 'P'
+					}
+				}
+			}
+			subs, ok := cache[sub]
+			if !ok {
+				subs = sp.bodies(level+1, G, F, sub)
+				cache[sub] = subs
+			}
 			for _, sub := range subs {
 				nested = append(nested, item{k + "[" + sub.s + "]", sub.g, sub.f})
 			}
@@ -260,11 +294,11 @@ func (sp *space) bodies(level, G, F int) []item {
 		}
 	}
 	for _, sh := range sp.Leaves {
-		sp.fill(sh, item{}, G, F, emit)
+		sp.fill(sh, item{}, G, F, slot, emit)
 	}
 	for _, sh := range sp.Shapes {
 		for _, n := range nested {
-			sp.fill(sh, n, G, F, emit)
+			sp.fill(sh, n, G, F, slot, emit)
 		}
 	}
 	return out
@@ -274,7 +308,7 @@ func (sp *space) bodies(level, G, F int) []item {
 // Unreachable code is not generated: nothing follows a failing op in its
 // sequence, nothing at all follows a fault-type op (ABORT, failing native
 // call), and a handler is filled only if its TRY body can throw.
-func (sp *space) fill(sh string, n item, G, F int, emit func(item)) {
+func (sp *space) fill(sh string, n item, G, F int, slot byte, emit func(item)) {
 	hasHole := strings.IndexByte(sh, 'H') >= 0
 	if hasHole && (n.s == "" || n.g > G || n.f > F) {
 		return
@@ -299,7 +333,7 @@ func (sp *space) fill(sh string, n item, G, F int, emit func(item)) {
 				return
 			}
 			if sp.Full {
-				buf = append(buf, 'E')
+				buf = append(buf, slot)
 				rec(i+1, b, g, f, fdead, sdead, canThrow)
 				buf = buf[:l]
 				return
@@ -382,7 +416,11 @@ func (sp *space) programs() []string {
 	if sp.Leaves == nil {
 		sp.Leaves = leafShapes
 	}
-	its := sp.bodies(1, sp.G, sp.F)
+	var slot byte
+	if sp.Full {
+		slot = 'E'
+	}
+	its := sp.bodies(1, sp.G, sp.F, slot)
 	out := make([]string, 0, len(its))
 	for _, it := range its {
 		out = append(out, "A["+it.s+"]")
